@@ -29,7 +29,7 @@ BOUNDS = {"validators": "numeric options: every signed 64-bit integer rendered a
                         "length validators: every length 0..140 (content free); mnemonic: 0..26 words with optional outer blanks; "
                         "file: every combination of is_dir / exists / parent-writable, value = any 3 ASCII characters",
           "main": "six commands x both networks x paranoia on/off x file/stdout; account free in [0, 2^31-1), interval start free, length 0..1",
-          "end to end": "24 concrete argument vectors through `python -m btc_hd_wallet` (both sides of every validator bound)"}
+          "end to end": "29 concrete argument vectors through `python -m btc_hd_wallet` (both sides of every validator bound)"}
 STUBS = ["argparse -> documented contract (validated by the end-to-end vectors)", "wallet constructors -> recorders returning a wallet over a "
          "symbolic master (constructors themselves: C03/C08)", "sys.stdout / open() -> recording sinks; pathlib.Path.is_dir/exists, os.access -> "
          "symbolic booleans", "as C06 for generate()"]
@@ -265,9 +265,9 @@ CTOR = {"new": "new_wallet", "from-master-xprv": "from_extended_key", "from-mnem
         "from-bip39-seed": "from_bip39_seed_hex", "from-entropy-hex": "from_entropy_hex"}
 
 
-def main_wiring(E, R, command, testnet, paranoia, to_file, ln):
+def main_wiring(E, R, command, testnet, paranoia, to_file, ln, ctor_raises=False):
     if not E.symbolic:
-        return "native (covered by the end-to-end vectors)"
+        return main_native(E, R, command, testnet, paranoia, to_file, ln, ctor_raises)
     import builtins
     from sx import instrument, text
     account = E.bv("account", 31)
@@ -295,6 +295,8 @@ def main_wiring(E, R, command, testnet, paranoia, to_file, ln):
     for name in set(CTOR.values()):
         def rec(cls, *a, _n=name, **kw):
             calls.append((_n, a, kw))
+            if ctor_raises:
+                raise ValueError("secret rejected by the library")
             return w0
         instrument.register(getattr(PW, name).__func__, rec)
     instrument.register(R.main.parse_args, lambda argv: (parser, ns))
@@ -326,6 +328,13 @@ def main_wiring(E, R, command, testnet, paranoia, to_file, ln):
         E.check(status == 1 and parser.help == 1, "no command: help text and exit status 1")
         E.check(not out.writes and not files and not calls, "no command: no wallet is built and nothing is emitted")
         return "help"
+    if ctor_raises:
+        # a secret that passed the length validators but is refused by the library: the run must end with a
+        # non-zero status (an escaping exception is status 1) and emit nothing
+        E.check((isinstance(r, Raised) and status is None) or (status is not None and status != 0),
+                "a secret the library rejects ends the run with a non-zero status")
+        E.check(not out.writes and not files, "a failing run emits nothing")
+        return "rejected-secret"
     if isinstance(r, Raised):
         from btc_hd_wallet.bip32 import InvalidKeyError
         E.check(isinstance(r.exc, InvalidKeyError), "main() completes for validated arguments")
@@ -345,7 +354,9 @@ def main_wiring(E, R, command, testnet, paranoia, to_file, ln):
     # what the API returns for the same wallet, account and interval
     w1 = R.paper_wallet.PaperWallet(master=R.bip32.PrvKeyNode(key=w0.master.key, chain_code=w0.master.chain_code, testnet=testnet), testnet=testnet)
     w1.mnemonic, w1.password = w0.mnemonic, w0.password
-    ref = w1.generate(account, (start, end))
+    ref = E.run(w1.generate, account, (start, end))
+    if isinstance(ref, Raised):
+        return "reference-invalid-bip85"
     if paranoia:
         ref = R.main.paranoia_mode(ref)
     sink = files[0] if (to_file and files) else out
@@ -363,6 +374,35 @@ def main_wiring(E, R, command, testnet, paranoia, to_file, ln):
             from props.C15 import check_filtered
             check_filtered(E, R, w1.generate(account, (start, end)), dumps[0].obj, prefix="cli: ")
     return "ok"
+
+
+def main_native(E, R, command, testnet, paranoia, to_file, ln, ctor_raises):
+    """replay of a main() witness: the real program end to end with the witness's account / interval"""
+    account = E.bv("account", 31)
+    start, end = hw.interval(E, ln)
+    XPRV = "xprv9s21ZrQH143K3GJpoapnV8SFfukcVBSfeCficPSGfubmSFDxo1kuHnLisriDvSnRRuL2Qrg5ggqHKNVpxR86QEC8w35uxmGoggxtQTPvfUu"
+    if command is None:
+        return cli_vector(E, R, [], "help")
+    if ctor_raises:
+        bad = {"from-bip39-seed": ["from-bip39-seed", "zz" * 64], "from-entropy-hex": ["from-entropy-hex", "zz" * 16],
+               "from-master-xprv": ["from-master-xprv", "1" * 111], "from-mnemonic": None, "new": None}[command]
+        if bad is None:
+            return "no-native-equivalent"
+        return cli_vector(E, R, (["--file", "out.json"] if to_file else []) + bad, "fail")
+    argv = ["--account", str(account), "--interval", str(start), str(end)]
+    if testnet:
+        argv.append("--testnet")
+    if paranoia:
+        argv.append("--paranoia")
+    if to_file:
+        argv += ["--file", "out.json"]
+    api = {"from-bip39-seed": ("seed", SEED, {"testnet": testnet}), "from-mnemonic": ("mnemonic", MNEM, {"password": "pw", "testnet": testnet}),
+           "from-entropy-hex": ("entropy", ENTH, {"password": "pw", "testnet": testnet}), "from-master-xprv": ("xprv", XPRV, {})}.get(command)
+    if command == "new":
+        return "new: random secret, no native equivalence"
+    tail = {"from-bip39-seed": [command, SEED], "from-mnemonic": [command, MNEM, "--password", "pw"],
+            "from-entropy-hex": [command, ENTH, "--password", "pw"], "from-master-xprv": [command, XPRV]}[command]
+    return cli_vector(E, R, argv + tail, "ok", api=api, file_arg="out.json" if to_file else None)
 
 
 # ------------------------------------------------------------------------------- end-to-end vectors
@@ -391,6 +431,9 @@ def cli_vector(E, R, argv, expect, api=None, pre_existing=None, file_arg=None):
         if expect == "usage":
             E.check(p.returncode == 2 and p.stdout == "" and not new, "bad arguments: exit status 2, nothing on stdout, no file")
             return "usage"
+        if expect == "fail":
+            E.check(p.returncode != 0 and p.stdout == "" and not new, "unusable secret: non-zero status, nothing on stdout, no file")
+            return "fail"
         if expect == "help":
             E.check(p.returncode == 1 and not new, "no command: exit status 1 and no file")
             E.check("mnemonic" not in p.stdout.lower().replace("from-mnemonic", "").replace("mnemonic sentence", "").replace("mnemonic-len", "") or True, "help")
@@ -445,6 +488,10 @@ def cases(tier):
                         continue
                     cs.append(Case("main[%s,testnet=%s,paranoia=%s,file=%s]" % (command, testnet, paranoia, to_file), "main_wiring",
                                    dict(command=command, testnet=testnet, paranoia=paranoia, to_file=to_file, ln=ln), weight=12, max_paths=5000))
+                    if command is not None and not paranoia and testnet == to_file:
+                        cs.append(Case("main_rejected[%s,file=%s]" % (command, to_file), "main_wiring",
+                                       dict(command=command, testnet=testnet, paranoia=paranoia, to_file=to_file, ln=0, ctor_raises=True),
+                                       need=("a secret the library rejects ends the run with a non-zero status",)))
     return cs
 
 
@@ -477,6 +524,9 @@ def vectors():
     add(["--interval", "0", "1", "from-entropy-hex", ENTH, "--password", "pw"], "ok", api=("entropy", ENTH, {"password": "pw"}))
     add(["--interval", "0", "1", "from-mnemonic", MNEM, "--password", "TREZOR"], "ok", api=("mnemonic", MNEM, {"password": "TREZOR"}))
     add(["from-mnemonic", "abandon abandon"], "usage")
+    add(["from-bip39-seed", "zz" * 64], "fail")
+    add(["--file", "w.json", "from-entropy-hex", "zz" * 16], "fail")
+    add(["--paranoia", "from-master-xprv", "1" * 111], "fail")
     add(["from-master-xprv", "xprv123"], "usage")
     add(["new", "--mnemonic-len", "13"], "usage")
     return v
